@@ -93,6 +93,51 @@ def check_merge_exit(chk, ex_factory, found):
     _wrappers.row(chk, name + ":both-outcomes-explored", any(o.kind == "return" for o in outs) and any(o.kind == "raise" for o in outs), [o.kind for o in outs], found)
 
 
+def check_log_worker(chk, ex_factory, found):
+    """the logger process survives every message the library itself sends: _log_worker, run on a
+    queue holding one message of each level that occurs in a log_queue.put({...}) of helpers.py and
+    the final pill, returns (a dead logger stops draining the log pipe; workers that log much then
+    never finish flushing it, and parallel_add waits for them for ever)"""
+    import ast
+
+    ex = ex_factory({})
+    mod = ex.modules["helpers"]
+    levels = set()
+    for node in ast.walk(mod.tree):
+        if isinstance(node, ast.Dict):
+            for k, v in zip(node.keys, node.values):
+                if isinstance(k, ast.Constant) and k.value == "level" and isinstance(v, ast.Constant) and isinstance(v.value, str):
+                    levels.add(v.value)
+    _wrappers.row(chk, "_log_worker:levels-in-use-found", bool(levels), sorted(levels), found)
+    fn = ex.func("helpers", "_log_worker")
+    for lv in sorted(levels):
+        st = X.State()
+        msg = {"level": Const(lv), "text": Const("text")}
+        lq = st.new_obj("$queue", {"items": (), "feed": (msg, Const(None)), "closed": False})
+        try:
+            outs = ex.call_function(fn, [lq], {}, st)
+        except X.Unsupported as e:
+            chk.undecided.append(("_log_worker[%s]" % lv, "unsupported construct in glue: %s" % e))
+            continue
+        ok = bool(outs) and all(o.kind == "return" for o in outs)
+
+        def found(lv=lv):
+            # the real function, in this process, on a real queue
+            import queue as _q
+
+            helpers = chk.module("helpers")
+            q = _q.Queue()
+            q.put({"level": lv, "text": "text"})
+            q.put(None)
+            try:
+                helpers._log_worker(q)
+            except Exception as e:
+                return {"key": "_log_worker on a queue holding {'level': %r, 'text': ...} and the pill" % lv, "observed": "raised %s: %s" % (type(e).__name__, e), "expected": "logs the message and returns at the pill", "how": "real function, in-process queue"}
+            return None
+
+        _wrappers.row(chk, "_log_worker:survives-a-%s-message-and-stops-at-the-pill" % lv, ok, [(o.kind, getattr(_glue.exc_type(o.state, o.value), "__name__", None)) for o in outs if o.kind != "return"], found)
+
+
 def _vars(f):
     out, todo = set(), [f]
     while todo:
@@ -115,11 +160,17 @@ def run(chk):
         C08.check_worker(chk, ex, found, True, 3, "3 items, callback may raise")
     except X.Unsupported as e:
         chk.undecided.append(("_worker", "unsupported construct in glue: %s" % e))
-    for f in (check_monitor, check_merge_exit):
+    for f in (check_monitor, check_merge_exit, check_log_worker):
         try:
             f(chk, factory, found)
         except X.Unsupported as e:
             chk.undecided.append((f.__name__, "unsupported construct in glue: %s" % e))
+    # "every other item's full contribution, n_records() counting the successful items" needs the
+    # merges at the end to sum tables and both bookkeeping counters: every accepting path of every
+    # merge() reaches its merge kernel
+    from . import C15
+
+    C15.merge_glue(chk, ["CountMinLinear", "CountMinLog16", "CountMinLog8", "HyperLogLog", "HeavyHitters"])
     # the handler in the worker loop: catches Exception (not narrower), resets n_recs
     import ast
 
